@@ -83,9 +83,14 @@ def check(tier):
         for tag, b in corpus.pickles_of(v, unframed=False):
             items.append((f"corpus[{i}]/{tag}", b))
     total = e1.Out()
-    with mp.get_context("fork").Pool(ncpu()) as pool:
-        for o in pool.imap_unordered(e3._Guard(_one, PROP), items, chunksize=128):
-            total.merge(o)
+    from .. import par
+
+    for o in par.pmap_unordered(e3._Guard(_one, PROP), items, chunksize=128):
+        if isinstance(o, par.WorkerDied):
+            _d = e1.Out()
+            _d.violate(PROP, f"{PROP}|worker-process-died", f"{o.why} while checking {repr(o.item)[:300]}", {"item": repr(o.item)[:2000]}, 0)
+            o = _d
+        total.merge(o)
     for k, v in total.stats.items():
         rep.add("product_" + k, v)
     rep.add("evaluations", len(items))
